@@ -2505,6 +2505,11 @@ class BaseDict(object):
         value = self.rawDict.get(name, None)
         if value is None:
             value = self.defaults.get(name)
+            if isinstance(value, list):
+                # don't hand out the shared default list itself: it would be
+                # stored on this dict and modifying it in place (as scale_upem
+                # does with FontMatrix) would change the default of every font
+                value = list(value)
         if value is None:
             raise AttributeError(name)
         conv = self.converters[name]
